@@ -167,6 +167,26 @@ def handle (j : Json) : R Json := do
   | "judge" =>
     let tr ← (← fldArr j "trace").mapM parseEv
     return Json.mkObj [("bad", jarr ((judge su.idle su.cfg.maxloops su.cfg.hasStates su.cfg.rules tr).map jviol))]
+  | "isbusy" =>
+    -- `Drivable.isBusy(status)` for a list of status codes
+    let codes ← (← fldArr j "codes").mapM fun c => c.getNat?
+    return Json.mkObj [("busy", jarr (codes.map fun c => Json.bool (isBusy su.cfg.rules (c, ""))))]
+  | "judge_isbusy" =>
+    let table ← (← fldArr j "table").mapM fun p => do
+      match ← arr p with
+      | [c, b] => return ((← c.getNat?), (← b.getBool?))
+      | _ => throw "bad table"
+    return Json.mkObj [("bad", jarr ((busyPredicateBad su.cfg.rules table).map jnat))]
+  | "getstatus" =>
+    -- a sequence of `get_status(st_<s>, default_code)` lookups on one fresh module instance: results and `statusMap`
+    let qs ← (← fldArr j "lookups").mapM fun p => do
+      match ← arr p with
+      | [s, d] => return ((← s.getNat?), (← optNat d))
+      | _ => throw "bad lookup"
+    let res := lookups su.cfg.rules [] qs
+    let cache := res.2.mergeSort (fun a b => a.1 ≤ b.1)
+    return Json.mkObj [("results", jarr (res.1.map (jopt jstatus))),
+                       ("cache", jarr (cache.map fun p => jarr [jnat p.1, jopt jstatus p.2]))]
   | _ => throw s!"C14: unknown verb {k}"
 
 end Frappy.Drive.C14
